@@ -122,7 +122,7 @@ def alt_value(f, a, k, default, which):
             sc = a[1] if len(a) > 1 else k.get('scale', 1.0)
         else:
             loc, sc = 0.0, 1.0
-        z = {1: -6.0, 2: 6.0, 3: 0.0}[which]
+        z = {1: -6.0, 2: 6.0, 3: 0.5}[which]      # never the exact mean: an exact 0.0 draw has probability 0
         return _bcast(default, np.asarray(loc, dtype=float) + np.asarray(sc, dtype=float) * z)
     if f == 'exponential':
         sc = a[0] if len(a) > 0 else k.get('scale', 1.0)
